@@ -1,6 +1,7 @@
 import Driver.Sexp
 import Pcore.Model.Json
 import Pcore.Generated.JsonTable
+import Pcore.Generated.PbArms
 /-! Driver ops for C11:  `json <ev>`, `pb <dval>`, `pbev <ev>` (syntax in harness/c11). -/
 namespace C11
 open Sx Pcore.Json
@@ -85,15 +86,16 @@ def exec : List Sexp → String
     match dvalOf v with
     | none => "bad-op"
     | some dv =>
-      let p := toPB dv
-      let viaStream := match protoConsume (consumePB p) with | some p' => dvalStr (fromPB p') | none => "fault"
-      dvalStr (fromPB p) ++ " | " ++ viaStream
+      let a := Pcore.Generated.pbArms
+      let p := toPB a dv
+      let viaStream := match protoConsume (consumePB a p) with | some p' => dvalStr (fromPB a p') | none => "fault"
+      dvalStr (fromPB a p) ++ " | " ++ viaStream
   | [.atom "pbev", e] =>
     match pevOf e with
     | none => "bad-op"
     | some ev =>
       match protoConsume ev with
-      | some p => pevStr (consumePB p)
+      | some p => pevStr (consumePB Pcore.Generated.pbArms p)
       | none => "fault"
   | _ => "bad-op"
 
